@@ -53,7 +53,9 @@ class Prefixed(object):
 def thorough(ctx, rep, prop, rules):
     """thorough tier = quick tier + the same rule instances on the C++ library (yaep.cpp compiles
     yaep.c as C++ against the C++ containers) + the mutation self-test of this property
-    (analysis only: every `break' mutant must be reported, every `benign' one must stay silent)."""
+    (analysis only: every `break' mutant must be reported, every `benign' one must stay silent)
+    + the kept patches of the sub-agents (seeded changes reported before must still be reported,
+    behaviour-preserving edits must stay silent)."""
     import subprocess
     from .props import CXX_OK
     rep.rule("thorough", "the rules that do not depend on the C container idioms are re-run on libyaep++ (same instances must hold); the checker itself is tested on "
@@ -80,6 +82,15 @@ def thorough(ctx, rep, prop, rules):
         rep.broke("selftest", "checker self-test: mutant not handled as expected: " + " ".join(l.split()))
     if not lines:
         rep.broke("selftest", "no mutant registered for " + prop)
+    # the kept patches: seeded property-breaking changes that this check reported must still be reported, behaviour-preserving edits must stay silent
+    q = subprocess.run([sys.executable, os.path.join(here, "selftest", "patches.py"), "--prop", prop, "-j", "14"], cwd=here, stdout=subprocess.PIPE, stderr=subprocess.STDOUT,
+                       universal_newlines=True)
+    for l in q.stdout.splitlines():
+        parts = l.split(None, 3)
+        if len(parts) >= 3 and parts[0] == "ok":
+            rep.ok("selftest", "%s/%s" % (parts[1], parts[2]), nontrivial=True, sample={"patch": parts[2], "kind": parts[1], "verdict": "reported" if parts[1] == "seed" else "silent"})
+        elif len(parts) >= 3 and parts[0] == "FAIL":
+            rep.broke("selftest", "checker self-test: kept patch not handled as expected: " + " ".join(l.split())[:500])
 
 
 def registry():
